@@ -35,7 +35,7 @@ META = {
         'quick': 'T <= 2 frames (T = 3 for k = 2), C = 3, beam width k in {1, 2, 3}, non-pruning selector, model_eos on/off, init_h given or not, '
                  'lm_scale symbolic in [0,3], insertion bonus symbolic >= 0, every LM (one free real per (prefix, character) and per end-of-line); '
                  'bags of 2..3 hypotheses with symbolic scores, LM score present / absent, symbolic weight',
-        'thorough': 'T = 3 for k <= 3, C = 3; T = 2 with C = 4; bags of up to 4 hypotheses',
+        'thorough': 'T = 3 for k <= 2 (all eos / init combinations), C = 3; T = 2 with C = 4; bags of up to 4 hypotheses',
     },
     'assumptions': [
         'as C02; the LM is deterministic and its score depends on (start state, prefix, next character) only',
@@ -52,7 +52,7 @@ def tasks(tier):
     if tier == 'quick':
         combos = [(1, 1), (1, 2), (2, 1), (2, 2), (2, 3), (3, 2)]
     else:
-        combos = [(1, 1), (1, 2), (2, 1), (2, 2), (2, 3), (3, 1), (3, 2), (3, 3)]
+        combos = [(1, 1), (1, 2), (2, 1), (2, 2), (2, 3), (3, 1), (3, 2)]
     for T, k in combos:
         for eos in (False, True):
             for init in (False, True):
